@@ -91,6 +91,89 @@ def interval_of(e, fold):
     return go(e)
 
 
+_INT_CALLS = {"random.randint", "random.getrandbits", "random.randrange", "int", "len", "ord", "round"}
+_FLOAT_CALLS = {"random.random", "random.uniform", "random.gauss", "random.triangular", "random.expovariate", "random.normalvariate", "float"}
+_STR_CALLS = {"str", "chr", "repr"}
+_BYTES_CALLS = {"bytes", "random.randbytes", "os.urandom", "bytearray"}
+
+
+def pytype_of(e, p, mod, depth):
+    """the set of Python type names an expression can evaluate to, or None when unknown (no execution: builtins and
+    `random` functions by their documented result type, package helpers by their return statements)"""
+    if isinstance(e, ast.Constant):
+        return {type(e.value).__name__}
+    if isinstance(e, (ast.Compare,)) or (isinstance(e, ast.UnaryOp) and isinstance(e.op, ast.Not)):
+        return {"bool"}
+    if isinstance(e, ast.JoinedStr):
+        return {"str"}
+    if isinstance(e, (ast.List, ast.ListComp)):
+        return {"list"}
+    if isinstance(e, (ast.Dict, ast.DictComp)):
+        return {"dict"}
+    if isinstance(e, ast.Tuple):
+        return {"tuple"}
+    if isinstance(e, (ast.Set, ast.SetComp)):
+        return {"set"}
+    if isinstance(e, ast.IfExp):
+        a_, b_ = pytype_of(e.body, p, mod, depth), pytype_of(e.orelse, p, mod, depth)
+        return None if a_ is None or b_ is None else a_ | b_
+    if isinstance(e, ast.BoolOp):
+        parts = [pytype_of(v, p, mod, depth) for v in e.values]
+        return None if any(x is None for x in parts) else set().union(*parts)
+    if isinstance(e, ast.UnaryOp) and isinstance(e.op, (ast.USub, ast.UAdd, ast.Invert)):
+        t = pytype_of(e.operand, p, mod, depth)
+        return None if t is None else ({"int"} if t == {"bool"} else t)
+    if isinstance(e, ast.BinOp):
+        l, r = pytype_of(e.left, p, mod, depth), pytype_of(e.right, p, mod, depth)
+        if l is None or r is None:
+            return None
+        num = {"int", "float", "bool"}
+        if l <= num and r <= num:
+            if isinstance(e.op, ast.Div) or "float" in l | r:
+                return {"float"}
+            return {"int"}
+        if l == r and l <= {"str", "bytes", "list", "tuple"} and isinstance(e.op, ast.Add):
+            return l
+        if isinstance(e.op, ast.Mult) and (l <= {"str", "bytes", "list"} and r <= {"int"}):
+            return l
+        return None
+    if isinstance(e, ast.Call):
+        fn = norm(e.func)
+        if fn == "bool":
+            return {"bool"}
+        if fn in _INT_CALLS:
+            return {"int"}
+        if fn in _FLOAT_CALLS:
+            return {"float"}
+        if fn in _STR_CALLS:
+            return {"str"}
+        if fn in _BYTES_CALLS:
+            return {"bytes"} if fn != "bytearray" else {"bytearray"}
+        if fn in ("list", "sorted"):
+            return {"list"}
+        if fn == "dict":
+            return {"dict"}
+        if fn in ("random.choice",) and len(e.args) == 1 and isinstance(e.args[0], (ast.List, ast.Tuple)):
+            parts = [pytype_of(v, p, mod, depth) for v in e.args[0].elts]
+            return None if not parts or any(x is None for x in parts) else set().union(*parts)
+        if isinstance(e.func, ast.Attribute):
+            if e.func.attr in ("hex", "decode", "format", "lower", "upper", "strip", "isoformat") or (e.func.attr == "join" and isinstance(e.func.value, ast.Constant) and isinstance(e.func.value.value, str)):
+                return {"str"}
+            if e.func.attr in ("encode", "to_bytes") or (e.func.attr == "join" and isinstance(e.func.value, ast.Constant) and isinstance(e.func.value.value, bytes)):
+                return {"bytes"}
+            if e.func.attr in ("bit_length", "count", "index", "find"):
+                return {"int"}
+        if isinstance(e.func, ast.Name) and depth > 0:
+            f = p.resolve_func(mod, e.func)
+            if f is not None and f.cls is None:
+                rets = [n.value for n in walk_local(f.node) if isinstance(n, ast.Return)]
+                if rets and all(r is not None for r in rets) and not any(isinstance(n, (ast.Yield, ast.YieldFrom)) for n in walk_local(f.node)):
+                    parts = [pytype_of(r, p, f.mod, depth - 1) for r in rets]
+                    return None if any(x is None for x in parts) else set().union(*parts)
+        return None
+    return None
+
+
 def run(ctx):
     a = analysis(ctx.program)
     p = a.p
@@ -252,6 +335,29 @@ def run(ctx):
             ctx.check("C20.R2", inst + f" stays within the finite {bs} range", ok, g.where(s_.node), f"gen_data: {bs} drawn from [{iv[0]!r}, {iv[1]!r}]", f"the value can exceed the largest finite {bs} ({FLOAT_MAX[bs]!r}): the encoder's struct.pack raises OverflowError (float) or stores an infinity")
     if n_f < 2:
         raise AnalysisError(f"only {n_f} float / double return paths found in gen_data")
+
+    # the Python type of what is generated per kind (no logical type): what validate / the encoder accept for that kind
+    EXPECT = {"null": {"NoneType"}, "boolean": {"bool"}, "int": {"int"}, "long": {"int"}, "float": {"float", "int"}, "double": {"float", "int"}, "string": {"str"}, "bytes": {"bytes"}, "fixed": {"bytes"}, "enum": {"str"}, "array": {"list"}, "map": {"dict"}, "record": {"dict"}, "error": {"dict"}}
+    n_t = 0
+    seen_t = set()
+    for s_ in summaries(cfg, max_paths=5000):
+        if s_.kind != "return" or s_.expr is None:
+            continue
+        bases = lits(s_.facts, RT) & set(EXPECT)
+        if len(bases) != 1 or lits(s_.facts, LT):
+            continue
+        bs = next(iter(bases))
+        if (bs, s_.text) in seen_t:
+            continue
+        seen_t.add((bs, s_.text))
+        ts = pytype_of(s_.expr, p, umod, 2)
+        if ts is None:
+            continue
+        n_t += 1
+        ok = ts <= EXPECT[bs]
+        ctx.check("C20.R2", f"gen_data: a {bs} is generated as {'/'.join(sorted(EXPECT[bs]))}", ok, g.where(s_.node), f"gen_data: {bs} value `{s_.text[:60]}` has type {'/'.join(sorted(ts))}", f"validate (and writer(validator=True)) accept only {'/'.join(sorted(EXPECT[bs]))} for {bs}: the generated datum does not conform to the schema it was generated from")
+    if n_t < 4:
+        ctx.unrecognised("C20.R2", "types of generated values", g.where(), f"the Python type of only {n_t} generated values could be inferred")
 
     ctx.rule("C20.R3", "one value yielded per iteration of range(count); generate_one = next(generate_many(schema, 1))", floor=2)
     gm = p.func("utils:generate_many")
